@@ -25,7 +25,12 @@
 From Coq Require Import List Arith Bool.
 Import ListNotations.
 
-Inductive kind := KSingle | KCluster | KSentinel.
+(** [KPipeInternal]: the commands a pipe builds itself from the pool on the cached MGET / JSON.MGET path
+    (pipe.go doCacheMGet: one PTTL per missing key and the rewritten MGET).  They live inside one
+    p.DoMulti(OPT-IN, MULTI, PTTL…, MGET, EXEC); the pipe recycles them only after EXEC answered with an array,
+    i.e. after the whole block was written and answered — never on an error return (abandoned, transport error,
+    EXEC refused), because the writer goroutine may still hold the block. *)
+Inductive kind := KSingle | KCluster | KSentinel | KPipeInternal.
 
 Inductive outcome :=
 | OutReply | OutRedirect | OutCacheAborted | OutCtxBeforeQueue | OutQueueRefused | OutAbandoned
@@ -37,6 +42,14 @@ Definition leaves_in_flight (o : outcome) : bool := match o with OutAbandoned =>
 (** does resp.NonRedisError() == nil (or ErrDoCacheAborted on the cache paths) hold for this outcome? *)
 Definition recyclable_result (o : outcome) : bool :=
   match o with OutReply | OutRedirect | OutCacheAborted => true | _ => false end.
+
+(** the decision per kind: the clients recycle on every recyclable result; a pipe recycles its internally built
+    commands only when EXEC delivered the array ([OutReply]); an EXEC refusal ([OutCacheAborted]) leaves them to the GC *)
+Definition recycles (k : kind) (o : outcome) : bool :=
+  match k with
+  | KPipeInternal => match o with OutReply => true | _ => false end
+  | _ => recyclable_result o
+  end.
 
 (** is the error of this outcome one the retry loops may act on?  (isRetryable / shouldRefreshRetry: a non-Redis
     error while ctx.Err() == nil; ctx errors are never retried.)  LOADING / TRYAGAIN / CLUSTERDOWN replies are
@@ -54,11 +67,15 @@ Definition redirect_allowed (k : kind) : bool := match k with KCluster => true |
 
 (** does the client loop go round again after this attempt? *)
 Definition goes_again (k : kind) (e : event) : bool :=
-  match e with
-  | EvAttempt OutConnExpired | EvAttemptAgain OutConnExpired => true      (* goto retry, unconditionally *)
-  | EvAttemptAgain OutRedirect => redirect_allowed k                      (* MOVED / ASK, budget left *)
-  | EvAttemptAgain o => retry_candidate o
-  | EvAttempt _ => false
+  match k with
+  | KPipeInternal => false      (* one p.DoMulti; a retry by the client builds new internal commands *)
+  | _ =>
+    match e with
+    | EvAttempt OutConnExpired | EvAttemptAgain OutConnExpired => true      (* goto retry, unconditionally *)
+    | EvAttemptAgain OutRedirect => redirect_allowed k                      (* MOVED / ASK, budget left *)
+    | EvAttemptAgain o => retry_candidate o
+    | EvAttempt _ => false
+    end
   end.
 
 Definition outcome_of (e : event) : outcome := match e with EvAttempt o | EvAttemptAgain o => o end.
@@ -78,7 +95,7 @@ Fixpoint run_life_aux (k : kind) (pinned : bool) (evs : list event) : option (li
       match r with
       | _ :: _ => None                           (* nothing happens after the call returned *)
       | [] =>
-        if recyclable_result o && negb pinned    (* PutCompleted: if c.cs.r == 0 { Put(c.cs) } *)
+        if recycles k o && negb pinned           (* PutCompleted: if c.cs.r == 0 { Put(c.cs) } *)
         then Some [LAttempt o; LRecycle; LReturn]
         else Some [LAttempt o; LReturn]
       end
